@@ -227,6 +227,11 @@ struct Shared {
 
 /// Explore all schedules of `cfg` with at most `bound` deviations (or until `max_exec`).
 pub fn explore<W: World>(cfg: &W::Cfg, bound: u32, max_exec: u64, threads: usize) -> ExploreStats {
+    explore_until::<W>(cfg, bound, max_exec, threads, None)
+}
+
+/// As `explore`, additionally stopping (and reporting `capped`) once `deadline` has passed.
+pub fn explore_until<W: World>(cfg: &W::Cfg, bound: u32, max_exec: u64, threads: usize, deadline: Option<std::time::Instant>) -> ExploreStats {
     let mut stats = ExploreStats::default();
     // canonical schedule twice: determinism check
     let c1 = match run_one::<W>(cfg, &[], false) {
@@ -282,8 +287,9 @@ pub fn explore<W: World>(cfg: &W::Cfg, bound: u32, max_exec: u64, threads: usize
                     break;
                 };
                 let n = executions.fetch_add(1, Ordering::Relaxed);
-                if n >= max_exec || !errs.lock().unwrap().is_empty() {
-                    if n >= max_exec {
+                let late = deadline.map(|d| std::time::Instant::now() > d).unwrap_or(false);
+                if n >= max_exec || late || !errs.lock().unwrap().is_empty() {
+                    if n >= max_exec || late {
                         capped.store(true, Ordering::Relaxed);
                     }
                     executions.fetch_sub(1, Ordering::Relaxed);
